@@ -159,6 +159,11 @@ func ruleLockBalance(ctx *Ctx, rule string, scope func(*flow.Unit) bool) {
 			} else {
 				r.Violation(rule, u.Name+" transfer", pos, fmt.Sprintf("documented lock transfer is %q, code does %q", want, got))
 			}
+		case (s.CondIdx >= 0 || len(s.All) > 0) && u.Obj != nil && core.IsNewFunc(u.Obj):
+			// a helper that did not exist on the reference tree: its net effect is
+			// its summary, which is applied at each of its call sites, where the
+			// balance of the calling function is judged
+			r.Ok(rule, u.Name, pos, "new helper with net lock effect "+got+": accounted for at its call sites through its summary")
 		case s.CondIdx >= 0 || len(s.All) > 0:
 			tr := []string{}
 			if len(u.Exits) > 0 {
